@@ -24,7 +24,7 @@
 From Coq Require Import List Arith ZArith Bool.
 Import ListNotations.
 From MV Require Import Geometry.RankDet Base.Graph Base.Cover Base.ZV3 Geometry.Dimensionality Geometry.DimensionalityProofs
-  Geometry.DimensionalityInvariance Geometry.RankElim Geometry.VoltageLattice Geometry.InvarianceFull Geometry.Extend Geometry.DispTensor Geometry.DimFromTensor Geometry.Sublattice Geometry.Supercell.
+  Geometry.DimensionalityInvariance Geometry.RankElim Geometry.VoltageLattice Geometry.InvarianceFull Geometry.Extend Geometry.DispTensor Geometry.DimFromTensor Geometry.Sublattice Geometry.Supercell Geometry.DimWrapped.
 From Coq Require Import QArith.
 Local Open Scope nat_scope.
 
@@ -423,3 +423,20 @@ Example C09_supercell_example :
   /\ dim_spec 2 p E = Some (1, 1) /\ dim_spec 4 p E' = Some (1, 1).
 Proof. exact supercell_example. Qed.
 Print Assumptions C09_supercell_example.
+
+(* ... and with the wrapping front end (repair abcbfc3): atoms stored anywhere are first moved into the cell by whole lattice
+   vectors of the periodic directions; the answer computed from the C10 tables of the WRAPPED structure is the answer of the
+   discrete mirror on the bonded network of the structure AS STORED *)
+Theorem C09_get_dimensionality_wraps_then_reads_C10_tables :
+  forall (pad : Q) a b c pbc pos0 posw s rad thr, (0 < pad)%Q -> vol a b c <> 0%Z -> length posw = length pos0 ->
+  (forall i, okoff (p_of pbc) (s i) = true) ->
+  (forall i, i < length pos0 -> nth i posw zero3 = (let '(x, y, z) := s i in ZV3.add (nth i pos0 zero3) (ZV3.lat a b c x y z))) ->
+  (forall r, In r posw -> in_cell a b c pbc r) ->
+  0 < length pos0 -> (0 <= thr)%Z -> (forall i, i < length pos0 -> (0 <= rad i)%Z) -> (0 < cutoff (length pos0) rad thr)%Z ->
+  forall E, wf_E (length pos0) (p_of pbc) E = true ->
+  (forall i j o, i < length pos0 -> j < length pos0 -> okoff (p_of pbc) o = true -> (i, o) <> (j, ozero) ->
+     (In (i, j, o) (sym E) <-> bonded a b c (fun i => nth i pos0 zero3) rad thr i j o)) ->
+  get_dim_metric (length pos0) (p_of pbc) rad thr (tab_1x pad a b c pbc posw rad thr) (tab_2x pad a b c pbc posw rad thr)
+  = get_dim_graph (length pos0) (p_of pbc) E.
+Proof. exact get_dim_of_wrapped_tables. Qed.
+Print Assumptions C09_get_dimensionality_wraps_then_reads_C10_tables.
